@@ -249,3 +249,83 @@ def gen_tree(rng, depth, dirty, maxports=5, leaf_maxhash=1):
         sub = gen_tree(rng, depth - 1, dirty, max(2, maxports - 1), leaf_maxhash) if is_sub else None
         t.append(mk_port(segs, args, gen_meta(rng), sub))
     return t
+
+
+# ---- names_ok: the decidable hypothesis of C09_dispatchable / C18_lookup -----------------
+# (a line-by-line mirror of coq/Ports/NamesOk.v; the driver prints the value the
+#  extracted function gives, the plug-ins compare)
+def _litchar(c):
+    return 0 < c < 127 and c not in b":{*#" and not (48 <= c <= 57)
+
+def _segs_ok(segs):
+    for i, (k, v) in enumerate(segs):
+        if k == 'L':
+            if not v or not all(_litchar(c) for c in v):
+                return False
+        else:
+            if not (0 <= v < 10**9):
+                return False
+            if i + 1 < len(segs) and segs[i + 1][0] == 'E':
+                return False
+    return True
+
+def _args_ok(a):
+    return a == b"" or (a[:1] == b":" and 0 not in a and 35 not in a)
+
+def _raw_segs(p):
+    """the segments as the Coq side structures them: literal runs and '#<digits>'; None if
+    the raw name does not have that form (a '#' without digits, digits with leading zeros)"""
+    segs, args = parse_name(p['name'])
+    if render_segs(segs) + args != p['name']:
+        return None
+    return segs, args
+
+def _text_ok(t0):
+    return len(t0) > 0 and all(_litchar(c) for c in t0) and 47 not in t0
+
+def _leaf_ok(segs, args):
+    if not _segs_ok(segs) or not segs:
+        return False
+    if segs[0][0] != 'L' or segs[0][1][:1] == b"/":
+        return False
+    if segs[-1][0] == 'L' and segs[-1][1].endswith(b"/"):
+        return False
+    return _args_ok(args)
+
+def _sub_ok(segs, args):
+    if args != b"":
+        return False
+    if len(segs) == 1 and segs[0][0] == 'L':
+        t = segs[0][1]
+        return t.endswith(b"/") and _text_ok(t[:-1])
+    if len(segs) == 3 and segs[0][0] == 'L' and segs[1][0] == 'E' and segs[2] == ('L', b"/"):
+        return _text_ok(segs[0][1]) and 0 <= segs[1][1] < 10**9
+    return False
+
+def _key(segs):
+    return b"".join(v if k == 'L' else b"#" for k, v in segs)
+
+def _table_keys_free(t):
+    ks = []
+    for p in t:
+        r = _raw_segs(p)
+        if r is None:
+            return False
+        ks.append(_key(r[0]))
+    for i in range(len(ks)):
+        for j in range(i + 1, len(ks)):
+            if ks[j].startswith(ks[i]) or ks[i].startswith(ks[j]):
+                return False
+    return True
+
+def _port_ok(p):
+    r = _raw_segs(p)
+    if r is None:
+        return False
+    segs, args = r
+    if p['sub'] is None:
+        return _leaf_ok(segs, args)
+    return _sub_ok(segs, args) and _table_keys_free(p['sub']) and all(_port_ok(q) for q in p['sub'])
+
+def names_ok(root):
+    return _table_keys_free(root) and all(_port_ok(p) for p in root)
